@@ -2,6 +2,7 @@
 #include <AIToolbox/Factored/Utils/Core.hpp>
 #include "vio.hpp"
 bool algebraCase(const std::string & kind, vio::Cursor & c, vio::Out & o);   // h_algebra.cpp
+bool learnCase(const std::string & kind, vio::Cursor & c, vio::Out & o);     // h_learn.cpp
 using namespace AIToolbox::Factored;
 
 static Factors readFactors(vio::Cursor & c) { auto v = c.nextSizes(); return Factors(v.begin(), v.end()); }
@@ -113,6 +114,6 @@ int main(int argc, char ** argv) {
             size_t m = c.nextSize();
             auto r = toIndexPartialAndSkip(ids, space, f, m);
             o << r.first << r.second;
-        } else if (!algebraCase(kind, c, o)) throw std::logic_error("unknown case kind " + kind);
+        } else if (!algebraCase(kind, c, o) && !learnCase(kind, c, o)) throw std::logic_error("unknown case kind " + kind);
     });
 }
